@@ -331,6 +331,7 @@ class SimDevice(object):
         self.silent = False       # device stops talking completely
         self.stop_after = None    # device stops talking once this many packets were emitted (absolute index)
         self.mute_streams = set() # local ids whose packets are withheld
+        self.mute_next_opens = 0  # the next n streams that are opened are muted (their OPEN is answered late)
         self.sessions = 0
         self.all_streams = []     # every DevStream of every session
         self.host_log = []        # (session, Packet) every host packet
@@ -464,6 +465,10 @@ class SimDevice(object):
         mode = self.remote_ids
         if mode == "same":
             return local
+        if mode == "swap":
+            # crossed ids: the stream with local id 1 gets remote id 2 and vice versa
+            r = local + 1 if local % 2 else local - 1
+            return r if 1 <= r <= wire.M32 else (local - 1 if local > 1 else 2)
         if mode == "small":
             self._remote_counter += 1
             return self._remote_counter
@@ -484,6 +489,9 @@ class SimDevice(object):
             self._retire(old)
         st = DevStream(local, self._new_remote(local), dest)
         st.owner = actor
+        if self.mute_next_opens > 0:
+            self.mute_next_opens -= 1
+            self.mute_streams.add(local)
         self.streams[local] = st
         self.all_streams.append(st)
         if self.monitor:
